@@ -12,6 +12,13 @@
     signers as any placement can (OrbitRepresents / OrbitOverlapMinimal are checked by TLC in "agree" mode); they are
     built and validated by the real code exactly like the others. These sizes are where ceil((n-k)t/100) < n-k and where
     k<f, k=f, k>f are all inhabited, so the threshold arithmetic of the expel branch is observable.
+ 1b. Validation HISTORIES (emitted by the same "orbits" runs): sequences of voteproofs handed, in the model's order, to the
+    validators of ONE harness process - a genuine voteproof and the voteproof forged from its signatures (signature
+    transplants: the sign of node v for fact X attached to fact Y / to the fact of another stage point / the signature of
+    another node under v's name), genuine first and forged first. Each history has its own stage points, facts and fresh
+    signatures. A forged voteproof that the real validators accept is a violation whatever was validated before; it is
+    reported as a conflict when the history then holds two accepted voteproofs with different majorities and at most f
+    real double-signers. The transplants are also in the catalogue of the isolated candidates (n=3).
  2. Agreement is evaluated on the table of REAL verdicts: every pair of really accepted candidates with
     different majority facts for which at most f nodes really signed both facts is a conflict. Pairs in which
     one side expels more than f nodes are the recorded design-level finding (key expel-voteproof;k>f);
@@ -30,6 +37,12 @@ from vlib import core
 
 KNOWN = "expel-voteproof;k>f"
 FORGED = ("wrongkey", "badsig")
+TP_ALL = ("tp-fact-all", "tp-point-all")
+TP_ONE = ("tp-fact-one", "tp-point-one", "tp-node-one")
+FORGED_LABEL = {"wrongkey": "foreign-key-signature", "badsig": "other-network-signature",
+                "tp-fact-all": "transplanted-signature;fact", "tp-fact-one": "transplanted-signature;fact",
+                "tp-point-all": "transplanted-signature;point", "tp-point-one": "transplanted-signature;point",
+                "tp-node-one": "transplanted-signature;node"}
 
 
 def _sub(ctx, name):
@@ -50,9 +63,14 @@ def _signed(c):
     for i, v in enumerate(c["votes"]):
         if v == "-":
             continue
-        forged = first and c["mut"] in FORGED
+        forged = (first and (c["mut"] in FORGED or c["mut"] in TP_ONE)) or c["mut"] in TP_ALL
         first = False
         if forged:
+            if c["mut"].startswith("tp-fact"):      # the signature was really made by this node: for the other fact of this stage point
+                if v == "A":
+                    b |= 1 << i
+                else:
+                    a |= 1 << i
             continue
         if v == "A":
             a |= 1 << i
@@ -70,7 +88,79 @@ def _desc(c):
         s += " expels %s (signers: %s)" % (ex, c["fam"])
     if c["mut"] != "none":
         s += " mutation=%s" % c["mut"]
+    if c.get("pt"):
+        s += " (at another stage point)"
     return s
+
+
+def _histories(ctx, hists):
+    """replay the validation histories in one harness process; judge forged voteproofs that were accepted"""
+    if not hists:
+        return
+    hin = os.path.join(ctx.work, "histories.ndjson")
+    hout = os.path.join(ctx.work, "history-verdicts.ndjson")
+    core.write_ndjson(hin, [{"n": h["n"], "t10": h["t10"],
+                             "hist": [{k: c[k] for k in ("votes", "ex", "signers", "kind", "claim", "mut", "stage", "pt")} for c in h["hist"]]}
+                            for h in hists])
+    ctx.vh(["C03", "history", "--in", hin, "--out", hout], timeout=1200)
+    rows = core.read_ndjson(hout)
+    if len(rows) != len(hists):
+        raise core.MachineryError("harness answered %d of %d histories" % (len(rows), len(hists)))
+    ctx.traces += len(hists)
+    depend = {}
+    nforged = 0
+    for h, r in zip(hists, rows):
+        n, t10 = h["n"], h["t10"]
+        f = (n * 1000 - n * t10) // 1000
+        seq = h["hist"]
+        for c in seq:
+            c["n"], c["t10"] = n, t10
+        ctx.case(["history", n, t10, [[c[k] for k in ("votes", "ex", "kind", "claim", "mut", "stage", "pt")] for c in seq]],
+                 nontrivial=True,
+                 sample={"history": [_desc(c) for c in seq], "model": h["why"], "real": [x["accepted"] for x in r["steps"]]})
+        if len(r["steps"]) != len(seq):
+            raise core.MachineryError("history %d: %d of %d validations answered" % (r["i"], len(r["steps"]), len(seq)))
+        # who REALLY signed which fact of the stage point (pt 0) anywhere in this history (_signed: a signature transplanted
+        # from the other fact was really made for that fact)
+        sa = sb = 0
+        for c in seq:
+            a, b = _signed(c)
+            if c["pt"] == 0:
+                sa, sb = sa | a, sb | b
+        double = [i + 1 for i in range(n) if (sa & sb) >> i & 1]
+        accepted = []
+        for j, (c, want, x) in enumerate(zip(seq, h["accepted"], r["steps"])):
+            if x.get("panic"):
+                ctx.violation("panic(validator)", "validating %s panicked: %s" % (_desc(c), x["panic"][:300]), {"history": seq, "real": r})
+                continue
+            if x["accepted"]:
+                accepted.append((j, c))
+            if x["accepted"] != want and c["mut"] not in FORGED_LABEL:
+                k = "step %d of %d|%s|model:%s|real:%s" % (j + 1, len(seq), "after " + "+".join(d["mut"] for d in seq[:j]) if j else "cold",
+                                                          h["why"][j], "accepted" if x["accepted"] else (x.get("verr") or x.get("serr") or "")[:60])
+                d = depend.setdefault(k, {"count": 0, "example": [_desc(d) for d in seq]})
+                d["count"] += 1
+        for j, c in accepted:
+            if c["mut"] not in FORGED_LABEL:
+                continue
+            nforged += 1
+            before = "after-genuine" if any(d["mut"] == "none" for d in seq[:j]) else ("cold" if j == 0 else "after-forged")
+            label = "%s;%s" % (FORGED_LABEL[c["mut"]], before)
+            rival = [d for (i, d) in accepted if d["pt"] == c["pt"] and d["stage"] == c["stage"] and d["claim"] in ("A", "B")
+                     and c["claim"] in ("A", "B") and d["claim"] != c["claim"]]
+            if rival and len(double) <= f:
+                key = "conflict;accepted-with(%s)" % label
+                what = ("n=%d t=%.1f f=%d: one validator, in this order: %s; it accepted [%s] although its signatures were not made for it, "
+                        "and [%s]: two majorities for one stage point, nodes that really signed both facts: %s"
+                        % (n, t10 / 10, f, " THEN ".join("[%s]" % _desc(d) for d in seq), _desc(c), _desc(rival[0]), double))
+            else:
+                key = "accepted-with(%s)" % label
+                what = ("n=%d t=%.1f f=%d: one validator, in this order: %s; it accepted [%s] although its signatures were not made for it"
+                        % (n, t10 / 10, f, " THEN ".join("[%s]" % _desc(d) for d in seq), _desc(c)))
+            ctx.violation(key, what, {"n": n, "t10": t10, "history": seq, "real": r["steps"], "double_signers": double})
+    ctx.extra["validation_histories"] = len(hists)
+    ctx.extra["forged_voteproofs_accepted_in_histories"] = nforged
+    ctx.extra["history_dependent_verdicts_on_genuine_voteproofs(evidence, not a verdict)"] = depend
 
 
 def _tlapm(ctx):
@@ -119,7 +209,9 @@ def run(ctx):
                 "non-trivial = at least one sign fact; distinct by the whole candidate. Pairs: every two really accepted candidates "
                 "with different majorities and at most f common equivocators. Larger suffrages (n=5,6,7 quick; 8,9,10 and t=80 "
                 "thorough) up to a renaming of the nodes: every profile (k expelled, a votes for the claimed fact, b for the other, "
-                "family, stage) in the placement with the fewest common signers between an A- and a B-voteproof")
+                "family, stage) in the placement with the fewest common signers between an A- and a B-voteproof. Validation histories (n=5,6,7 quick; "
+                "up to 10 thorough): per genuine base voteproof (k, a, stage) ten sequences of 2-3 validations by one process with the five "
+                "signature transplants, genuine first and forged first")
 
     def dump(cfg):
         sub = _sub(ctx, "dump-" + cfg[:-4])
@@ -140,8 +232,10 @@ def run(ctx):
         dumps = [f.result() for f in fd]
         models = [f.result() for f in fm]
     cands = []
+    hists = []
     for (res, steps), sub in dumps:
-        cands += steps
+        cands += [st for st in steps if "hist" not in st]
+        hists += [st for st in steps if "hist" in st]
         ctx.states += sub.states
         ctx.transitions += sub.transitions
         ctx.tlc_cmds += sub.tlc_cmds
@@ -169,6 +263,7 @@ def run(ctx):
 
     diverge = {}
     groups = {}
+    forged_accepted = []
     for c, x in zip(cands, rows):
         ctx.case([c[k] for k in ("n", "t10", "votes", "ex", "fam", "kind", "claim", "mut", "stage")],
                  nontrivial=any(v != "-" for v in c["votes"]),
@@ -183,10 +278,13 @@ def run(ctx):
             d["count"] += 1
         if x["accepted"] and c["claim"] in ("A", "B"):
             groups.setdefault((c["n"], c["t10"], c["stage"]), []).append(c)
+        if x["accepted"] and c["mut"] in FORGED_LABEL:
+            forged_accepted.append(c)
 
     # ---- agreement over the table of real verdicts
     pairs = 0
     conflicts = {}
+    in_conflict = set()
     real_pairs = []     # (n, A-voters mask, B-voters mask) of conflicting real pairs, to concretise model counterexamples
     for (n, t10, stage), lst in sorted(groups.items()):
         f = (n * 1000 - n * t10) // 1000
@@ -208,7 +306,8 @@ def run(ctx):
                 if "k>f" in (s1[3], s2[3]) and not muts:
                     key = KNOWN
                 elif muts:
-                    key = "conflict;accepted-with(%s)" % "+".join(muts)
+                    key = "conflict;accepted-with(%s)" % "+".join(sorted({FORGED_LABEL.get(m, m) for m in muts}))
+                    in_conflict.update(id(c) for c in (c1, c2))
                 elif s1[3] == "k=0" and s2[3] == "k=0":
                     key = "conflict;plain+plain"
                 else:
@@ -222,6 +321,15 @@ def run(ctx):
         ctx.violation(key, "n=%d t=%.1f f=%d: both accepted by the real validators: [%s] and [%s]; nodes that signed both facts: %s "
                       "(%d such pairs in this class)" % (n, t10 / 10, f, _desc(ent["c1"]), _desc(ent["c2"]), eqn, ent["count"]),
                       {"n": n, "t10": t10, "c1": ent["c1"], "c2": ent["c2"], "equivocators": eqn})
+    # a voteproof with a sign fact that is not its node's for its fact must never be accepted, conflicting or not (the candidates
+    # of one table share their signatures and are validated by one process, in no particular order)
+    for c in forged_accepted:
+        if id(c) in in_conflict:
+            continue
+        ctx.violation("accepted-with(%s)" % FORGED_LABEL[c["mut"]],
+                      "n=%d t=%.1f: accepted by the real validators although its signatures were not made for it: [%s]" % (c["n"], c["t10"] / 10, _desc(c)),
+                      {"candidate": c})
+    _histories(ctx, hists)
     ctx.extra["candidates_by_table"] = {}
     for c in cands:
         ctx.extra["candidates_by_table"][c["table"]] = ctx.extra["candidates_by_table"].get(c["table"], 0) + 1
@@ -262,6 +370,8 @@ def run(ctx):
     ctx.assumptions = [
         "candidates carry the network threshold t (the validators use the threshold embedded in the voteproof; rejecting a lower one is "
         "done elsewhere - Ballotbox - and is not part of these two validators)",
+        "validator state is explored along histories of 2-3 validations in one process (genuine then forged, forged then genuine, the same "
+        "voteproof twice); histories are separated from one another by their own stage points, facts and signatures",
         "one family of expel signers per candidate (all others / the live nodes / exactly the demanded number / one short / only the target)",
         "equivocators are counted among ballot sign facts only; expel operations may be signed by any suffrage node (statement)",
         "every candidate against the real code for n<=4 (quick) / n<=5 (thorough); n=5..7 (quick) / 5..10 (thorough) against the real code up to "
